@@ -25,6 +25,7 @@ def gen_jobs(seed, n):
         be = ['fork', 'spawn', 'serial', 'fork'][i % 4]
         c = dagcase.gen_case(rng, max_tids=4 if be == 'spawn' else 6, backend=be)
         c.pop('second', None)
+        c.pop('cpu', None)      # real backends use the machine's real CPU count
         c['sched'] = []
         if not c['bust']:
             # on a real backend a worker only "dies" inside run(); a loaded task never gets there
